@@ -2,7 +2,7 @@
 import itertools
 import threading
 
-from core import Mismatch, Prop, canon
+from core import CaseTimeout, Mismatch, Prop, canon
 
 
 class CustomFault(RuntimeError):
@@ -119,6 +119,8 @@ class C04(Prop):
             rdd = sc.parallelize([], 1)
             try:
                 return {'result': {'done': rdd.first()}, 'attempts': []}
+            except CaseTimeout:
+                raise
             except BaseException as e:  # pylint: disable=broad-except
                 return {'result': {'raised_any': type(e).__name__}, 'attempts': []}
         # partition p holds the data [v_p - 1, 1] (sum v_p, two elements) -> per-partition value v_p
@@ -200,6 +202,8 @@ class C04(Prop):
         except tuple(EXC.values()) as e:
             out = {'raised': e.args[0] * 100 + e.args[1] + 1, 'cls': type(e).__name__,
                    'want_cls': EXC[plan[e.args[0]]['exc']].__name__}
+        except CaseTimeout:
+            raise
         except BaseException as e:  # pylint: disable=broad-except
             out = {'raised_any': type(e).__name__}
         return {'result': out, 'attempts': [attempts.get(i, 0) for i in range(n)]}
@@ -231,10 +235,14 @@ class C04(Prop):
                 got = {'done': base.map(f).collect()}
             except self.Locked:
                 got = 'refused'
+            except CaseTimeout:
+                raise
             except BaseException as e:  # pylint: disable=broad-except
                 got = {'raised': type(e).__name__}
             try:
                 follow = sc.parallelize([1, 2, 3], 2).map(lambda x: x + 1).collect()
+            except CaseTimeout:
+                raise
             except BaseException as e:  # pylint: disable=broad-except
                 follow = {'raised': type(e).__name__}
         finally:
